@@ -42,10 +42,11 @@ type State struct {
 	Heaps map[string]string
 	Reach string
 	Epoch int
+	Clos  map[string]*Closure // closures stored in heap-allocated (captured) function variables, by address term
 }
 
 func (s *State) clone() *State {
-	n := &State{Cells: make(map[ssa.Value]Val, len(s.Cells)), Heaps: make(map[string]string, len(s.Heaps)), Reach: s.Reach, Epoch: s.Epoch}
+	n := &State{Cells: make(map[ssa.Value]Val, len(s.Cells)), Heaps: make(map[string]string, len(s.Heaps)), Reach: s.Reach, Epoch: s.Epoch, Clos: s.Clos}
 	for k, v := range s.Cells {
 		n.Cells[k] = v
 	}
@@ -124,7 +125,7 @@ func (e *Engine) addObl(fn *ssa.Function, kind, text string, pos token.Pos, reac
 	k := e.occ[base]
 	e.occ[base] = k + 1
 	name := fmt.Sprintf("%s@%d", base, k)
-	if kind == "post" || kind == "inv.init" || kind == "inv.preserved" || kind == "dec" || kind == "lemma" || kind == "frame" || kind == "pre-of" || kind == "frame.init" || kind == "frame.preserved" || kind == "assert" {
+	if kind == "post" || kind == "inv.init" || kind == "inv.preserved" || kind == "dec" || kind == "lemma" || kind == "frame" || kind == "pre-of" || kind == "frame.init" || kind == "frame.preserved" || kind == "assert" || kind == "closure" {
 		name = base
 		if k > 0 {
 			name = fmt.Sprintf("%s@%d", base, k)
@@ -267,7 +268,7 @@ func (e *Engine) mergeStates(sts []*State, label string) *State {
 		n := sts[0].clone()
 		return n
 	}
-	out := &State{Cells: map[ssa.Value]Val{}, Heaps: map[string]string{}}
+	out := &State{Cells: map[ssa.Value]Val{}, Heaps: map[string]string{}, Clos: sts[0].Clos}
 	var reaches []string
 	for _, s := range sts {
 		reaches = append(reaches, s.Reach)
